@@ -122,8 +122,9 @@ class Scales(ABC):
     """
 
     def _set_scales(self, scale_min: ArrayLike, scale_max: ArrayLike) -> None:
-        scale_min: NDArray = np.atleast_1d(scale_min)
-        scale_max: NDArray = np.atleast_1d(scale_max)
+        # own float64 copies: not the caller's array, nor its (e.g. float32) precision
+        scale_min: NDArray = np.atleast_1d(np.array(scale_min, dtype=np.float64))
+        scale_max: NDArray = np.atleast_1d(np.array(scale_max, dtype=np.float64))
 
         if scale_min.ndim != scale_max.ndim and scale_min.ndim != 1:
             raise ValueError(  # TODO: ConfigError
